@@ -301,3 +301,16 @@ def c18_whitespace(tier="quick", seed=0):
         out.append(ob(f"C18.whitespace.{nm}", bad is None, "K4", f"{len(cps)} code points" if bad is None else f"U+{bad[0]:04X}: engine treats it as {'white space' if bad[1] else 'not white space'}, ECMAScript the opposite",
                       witness=(f"{nm}(String.fromCharCode(0x{bad[0]:x}) + '42')" if bad else None), confirmed=True if bad else None, domain=len(cps)))
     return out
+
+
+@groups.group(id="C18.bounded.math-pow", prop="C18", kind="B", functions=["microjs.vm:js_pow", "microjs.context:Context._create_math_object"])
+def c18_math_pow(tier="quick", seed=0):
+    """Math.pow (and **) over the special-value grid against Number::exponentiate (the grid and the specification function of C06)"""
+    from contracts.C06_ops import c06_exponentiation
+    out = []
+    for o in c06_exponentiation(tier, seed):
+        o = dict(o)
+        o["id"] = o["id"].replace("C06.bounded.exponentiation", "C18.bounded.math-pow")
+        o["finding_key"] = o["id"]
+        out.append(o)
+    return out
